@@ -34,8 +34,8 @@ SPEC = {
                      "C02_revoke_advances_tail", "C02_tail_height_monotone",
                      "C02_restore_keeps_tail"],
         "env": {"VERIF_CRASH": "1", "VERIF_CUT": "1"},
-        "predicates": ["reload_consistent", "release_rule", "side_harmless", "no_errors",
-                       "conservation", "agreement"],
+        "predicates": ["reload_consistent", "disk_tables", "crashin_atomic", "release_rule",
+                       "side_harmless", "no_errors", "conservation", "agreement"],
         "with_reload": True, "with_cut": True,
     },
     # release-rule half of C06, decided on real channels (called from props/c06.py)
@@ -46,7 +46,8 @@ SPEC = {
         "theorems": ["C02_revoke_advances_tail", "C02_tail_height_monotone",
                      "C02_restore_keeps_tail", "C02_restore_keeps_signed"],
         "env": {"VERIF_CRASH": "1", "VERIF_CUT": "1"},
-        "predicates": ["release_rule", "reload_consistent", "side_harmless", "no_errors"],
+        "predicates": ["release_rule", "reload_consistent", "crashin_atomic", "side_harmless",
+                       "no_errors"],
         "with_reload": True, "with_cut": True,
     },
     "C03": {
@@ -58,7 +59,7 @@ SPEC = {
                      "C03_cut_refusal_is_money", "C03_free_rev_refuted"],
         "env": {"VERIF_CRASH": "0", "VERIF_CUT": "1"},
         "predicates": ["no_errors", "agreement", "mirror", "conservation",
-                       "release_rule", "drained", "logs_ordered"],
+                       "release_rule", "crashin_atomic", "drained", "logs_ordered"],
         "with_reload": False, "with_cut": True,
     },
 }
@@ -124,7 +125,9 @@ def run_prop(ctx, pid, nested=False):
                       {"case": row.get("case"), "chan_type": row.get("chan_type"),
                        "step_index": stepi, "code": codes[1:] if len(codes) > 1 else None,
                        "code_meaning": "1 result; 2-7 A.ltail/ltip/rtail/rtip/own/peer; 12-17 same for B; "
-                                       "20+ init; 30+ reload projection; 40/41 retransmission kinds",
+                                       "20+ init; 30+ reload projection; 40/41 retransmission kinds; "
+                                       "50 write-level crash: [50, code if the call completed, code if it "
+                                       "did not happen]",
                        "step": st and {"op": st["op"], "res": st["res"], "extra": st.get("extra")},
                        "script": {"chan_type": row.get("chan_type"),
                                   "ops": [s["op"] for s in row["steps"][:stepi + 1]]}},
